@@ -649,6 +649,13 @@ func finish(spec CheckSpec, c *Ctx, wall time.Duration) int {
 		rc = 1
 	}
 	if len(c.harness) > 0 {
+		// kept for post-mortems of intermittent harness errors (build directory, not under git)
+		if f, err := os.OpenFile(filepath.Join(VerifRoot, ".build", "harness-errors.log"), os.O_APPEND|os.O_CREATE|os.O_WRONLY, 0o644); err == nil {
+			for _, h := range c.harness {
+				fmt.Fprintf(f, "%s %s tier=%s: %s\n", time.Now().Format(time.RFC3339), spec.ID, c.Tier, h)
+			}
+			f.Close()
+		}
 		for _, h := range c.harness {
 			fmt.Fprintf(os.Stderr, "HARNESS-ERROR %s: %s\n", spec.ID, h)
 		}
